@@ -35,7 +35,8 @@ def strip_doc(body):
 def is_logging(s):
     """`logging.debug(...)` / `logging.exception(...)` statements carry no model content."""
     return (isinstance(s, ast.Expr) and isinstance(s.value, ast.Call)
-            and ast.unparse(s.value.func).split('.')[0] in ('logging',)
+            and len(ast.unparse(s.value.func).split('.')) >= 2
+            and ast.unparse(s.value.func).split('.')[-2] == 'logging'
             and ast.unparse(s.value.func).split('.')[-1] in ('debug', 'info', 'warning', 'error', 'exception'))
 
 
@@ -145,10 +146,33 @@ def gen_callback_context(cb):
         'self.__check_at_method_end': lambda a: f'(checkAtMethodEnd {" ".join(a)})'})
     out.append(tr.function(at, 'def cbAtLocation (cevent cfile cfunc : String) (event file : String) (line : Int) '
                                '(function_name : String) : Bool'))
-    # CallbackContext.process runs every callback, in order
+    # CallbackContext.process: every callback in order; each call optionally in its own try/except Exception
     pr = find_def(cb, 'CallbackContext.process')
-    if not same_shape(pr, 'for callback in self.__callbacks:\n    callback.process(ctx, event, frame, arg)'):
-        raise Untranslatable('CallbackContext.process no longer runs every callback in order')
+    body = no_logging(strip_doc(pr.body))
+    if not (len(body) == 1 and isinstance(body[0], ast.For) and ast.unparse(body[0].target) == 'callback'
+            and ast.unparse(body[0].iter) == 'self.__callbacks' and not body[0].orelse):
+        raise Untranslatable('CallbackContext.process is no longer one loop over its callbacks')
+    loop = no_logging(body[0].body)
+    isolated = False
+    if len(loop) == 1 and isinstance(loop[0], ast.Try):
+        t = loop[0]
+        if not (len(t.handlers) == 1 and t.handlers[0].type is not None
+                and ast.unparse(t.handlers[0].type) in ('Exception', 'BaseException')
+                and not no_logging(t.handlers[0].body) and not t.orelse and not t.finalbody):
+            raise Untranslatable('CallbackContext.process: per-callback try is not `except Exception: <logging>`')
+        isolated = True
+        loop = no_logging(t.body)
+    if [ast.unparse(x) for x in loop] != ['callback.process(ctx, event, frame, arg)']:
+        raise Untranslatable('CallbackContext.process no longer calls callback.process(ctx, event, frame, arg)')
+    on_fail = ('contextProcess fails rest   -- caught per callback: the others still run' if isolated
+               else '([], true)   -- the exception leaves process: the remaining callbacks are not run')
+    out.append('/-- `CallbackContext.process`: `fails cb` = `cb.process(..)` raises.  Result: the callbacks whose `process` was\n'
+               '    called after the first one of the list (in order), and whether an exception leaves `process`. -/\n'
+               'def contextProcess {β : Type} (fails : β → Bool) : List β → List β × Bool\n'
+               '  | [] => ([], false)\n'
+               '  | callback :: rest =>\n'
+               '    let r := if fails callback then ' + on_fail.split('   --')[0] + ' else contextProcess fails rest\n'
+               '    (callback :: r.1, r.2)\n')
     return out
 
 
